@@ -29,7 +29,7 @@ From Coq Require Import List Bool Arith PeanoNat QArith Qcanon.
 From PV Require Import Base.Reach Base.Graph Base.Semiring Base.Ravel Base.FinSum Base.RefFactor
   C08.Model C08.Spec C13.Model C13.Spec C13.ProofsDo C13.ProofsTrunc C13.ProofsAdj C13.ProofsAdjLift C13.Finite C13.ProofsRefuted
   C13.ProofsSum C13.ProofsAdjU C13.ProofsAdjEx C13.ProofsCrit C13.ProofsCritLift C13.ProofsBdGrid C13.ProofsBdGridLift
-  C13.ProofsBackdoorAll C13.ProofsBdLink C13.ProofsBdLinkEx C13.ProofsFrontdoorAll.
+  C13.ProofsBackdoorAll C13.ProofsBdLink C13.ProofsBdLinkEx C13.ProofsFrontdoorAll C13.ProofsFrontdoorSets.
 From Coq Require Import Permutation.
 Import ListNotations.
 Local Close Scope Q_scope.
@@ -392,7 +392,7 @@ Proof. exact backdoor_link_example. Qed.
    everything outside {x, y}; both as functions of an assignment.)  pgmpy offers no front-door QUERY route, only
    this test and the enumeration built on it, so there is no model function to link the formula to.
    Proof: Base/Frontdoor.v, from three uses of the back-door theorem of Base/Backdoor.v.
-   One mediator; for mediator SETS the statement is not proved (the coded test looks at each member separately). *)
+   One mediator here; mediator SETS: C13_frontdoor_adjustment_formula_sets in section 8. *)
 Theorem C13_frontdoor_adjustment_formula :
   forall (card : var -> nat) (g : digraph) (F : var -> asg -> Qc) (x m y : node) (xv : nat) (a : asg),
   wf_graph g -> acyclic g ->
@@ -426,3 +426,51 @@ Example C13_frontdoor_formula_nonvacuous :
   let g := {| nodes := [0; 1; 2; 3]; edges := [(1, 0); (1, 3); (0, 2); (2, 3)] |}%nat in
   wf_graph g /\ acyclic g /\ is_valid_frontdoor g 0 3 [2%nat] = true /\ is_valid_backdoor g 0 3 [] = false.
 Proof. exact frontdoor_formula_nonvacuous. Qed.
+
+
+(* ================================================================== 8. front-door adjustment over mediator SETS, unbounded *)
+(* pgmpy's test looks at each mediator separately (every parent of m is d-separated from y given m and x).  For every
+   DAG that implies the joint statement: every unobserved parent of every mediator is d-separated from y given ALL of
+   M and x.  (Simulation of the verified worklist relation: every (node, direction) state reachable from y under the
+   joint conditioning is reachable under each per-member conditioning, unless a per-member test is already violated -
+   the only step that differs is a collider opened by a descendant in M, and walking down to the first mediator below
+   it exposes a parent of that mediator that its own test forbids.) *)
+Theorem C13_frontdoor_per_member_joint :
+  forall g, wf_graph g -> acyclic g ->
+  forall (x y : node) (M : list node), ~ In y (M ++ [x]) ->
+  (forall m, In m M -> is_valid_backdoor g m y [x] = true) ->
+  forall m p, In m M -> In (p, m) (edges g) -> ~ In p (M ++ [x]) -> ~ dconnected g (M ++ [x]) y p.
+Proof. exact PV.Base.FrontdoorSets.per_member_joint. Qed.
+Print Assumptions C13_frontdoor_per_member_joint.
+
+(* The front-door formula for EVERY duplicate-free mediator list M that passes pgmpy's own test
+   is_valid_frontdoor g x y M (x, y outside M), every DAG, every family of conditional distributions along it:
+       sum_m  P(m, xv) / P(xv)  *  sum_x'  P(y, m, x') / P(m, x') * P(x')   =   sum_rest prod_{v <> x} F_v  at x = xv
+   (m ranges over the joint states of M), wherever P(xv) <> 0 and P(m, x') <> 0.  Proof: Base/FrontdoorSets.v -
+   simultaneous interventions FdoM, the conditional of Y is the same in any two families that agree off the
+   mediators (family_invariance), C13_frontdoor_per_member_joint. *)
+Theorem C13_frontdoor_adjustment_formula_sets :
+  forall (card : var -> nat) (g : digraph) (F : var -> asg -> Qc) (x y : node) (M : list node) (xv : nat) (a : asg),
+  wf_graph g -> acyclic g ->
+  (forall v, In v (nodes g) -> @depends_only Qc_sum_csr (F v) (v :: parents g v)) ->
+  (forall v, In v (nodes g) -> forall b, valid card b -> @sum_over Qc_sum_csr [v] [card v] (F v) b = 1%Qc) ->
+  In x (nodes g) -> In y (nodes g) -> y <> x -> (xv < card x)%nat ->
+  NoDup M -> incl M (nodes g) -> ~ In x M -> ~ In y M ->
+  is_valid_frontdoor g x y M = true ->
+  valid card a -> a x = xv ->
+  (forall b, valid card b -> b x = xv -> PV.Base.Markov.marg Qc_sum_csr card g F [x] b <> 0%Qc) ->
+  (forall b, valid card b -> PV.Base.Markov.marg Qc_sum_csr card g F (M ++ [x]) b <> 0%Qc) ->
+  @sum_over Qc_sum_csr M (map card M)
+    (fun b => (PV.Base.Markov.marg Qc_sum_csr card g F (M ++ [x]) b / PV.Base.Markov.marg Qc_sum_csr card g F [x] b *
+              @sum_over Qc_sum_csr [x] [card x]
+                (fun c => PV.Base.Markov.marg Qc_sum_csr card g F (y :: M ++ [x]) c / PV.Base.Markov.marg Qc_sum_csr card g F (M ++ [x]) c
+                          * PV.Base.Markov.marg Qc_sum_csr card g F [x] c) b)%Qc) a
+  = PV.Base.Backdoor.trunc Qc_sum_csr card g F x [y] a.
+Proof. exact frontdoor_adjustment_formula_sets. Qed.
+Print Assumptions C13_frontdoor_adjustment_formula_sets.
+
+(* non-vacuity: X -> M1 -> M2 -> Y with a latent U -> X, U -> Y: the two-element set {M1, M2} passes the test *)
+Example C13_frontdoor_sets_nonvacuous :
+  let g := {| nodes := [0; 1; 2; 3; 4]; edges := [(1, 0); (1, 4); (0, 2); (2, 3); (3, 4)] |}%nat in
+  wf_graph g /\ acyclic g /\ is_valid_frontdoor g 0 4 [2; 3]%nat = true /\ is_valid_backdoor g 0 4 [] = false.
+Proof. exact frontdoor_sets_nonvacuous. Qed.
